@@ -36,7 +36,7 @@ type c15Case struct {
 	Prog     string   `json:"prog"`
 	Input    string   `json:"input,omitempty"`
 	Vars     []string `json:"vars,omitempty"`
-	Ctx      string   `json:"ctx"`                // live | pre | timeout | never | bg | todo | none (= Execute)
+	Ctx      string   `json:"ctx"`                // live | pre | timeout | never | bg | todo | none (= Execute) | shared:A | shared:B (one context object per session)
 	Buffered bool     `json:"buffered,omitempty"` // Config.Output is a bufio.Writer
 	MustErr  bool     `json:"must_err"`           // the program cannot end on its own: the call must return the ctx error
 	Prefix   string   `json:"prefix,omitempty"`   // output that was printed before the cancellation
@@ -81,6 +81,12 @@ type c15Session struct {
 	cancelled bool
 	ticks     int
 	after     int
+	shared    map[string]c15Shared // context objects reused across calls of this session ("shared:A", "shared:B")
+}
+
+type c15Shared struct {
+	ctx    context.Context
+	cancel context.CancelFunc
 }
 
 func c15NewSession(src string) *c15Session {
@@ -95,7 +101,8 @@ func c15NewSession(src string) *c15Session {
 		}
 	}
 	s.funcs = map[string]any{
-		"cancel": func() { doCancel() },
+		"cancel":  func() int { doCancel(); return 1 },
+		"wait_ms": func(ms int) { time.Sleep(time.Duration(ms) * time.Millisecond) },
 		"cancel_later": func(ms int) {
 			go func() {
 				time.Sleep(time.Duration(ms) * time.Millisecond)
@@ -142,6 +149,21 @@ func (s *c15Session) run(cs c15Case) (res c15Res) {
 		s.cancelFn = cancel
 		s.mu.Unlock()
 		defer cancel()
+	case "shared:A", "shared:B":
+		if s.shared == nil {
+			s.shared = map[string]c15Shared{}
+		}
+		sh, ok := s.shared[cs.Ctx]
+		if !ok {
+			c, cancel := context.WithCancel(context.Background())
+			sh = c15Shared{c, cancel}
+			s.shared[cs.Ctx] = sh
+		}
+		ctx = sh.ctx
+		s.mu.Lock()
+		s.cancelFn = sh.cancel
+		s.cancelled = sh.ctx.Err() != nil
+		s.mu.Unlock()
 	case "pre":
 		c, cancel := context.WithCancel(context.Background())
 		cancel()
@@ -488,6 +510,166 @@ func runC15(c *vh.Ctx) {
 		if r.second.Panic != "" || got != want || r.second.Err != nil {
 			c.Fail(vh.Failure{Kind: "oracle", What: "a never-cancelled call right after a cancelled one on the same Interpreter differs from the same call on a fresh interpreter (or returned an error)",
 				Case: cs, Got: got + " panic=" + r.second.Panic, Want: want})
+		}
+	}
+
+	// ---- the SAME context object reused across calls of one Interpreter, with Execute / another context / Background in
+	// between: all sequences of three calls over {A, B, Background, Execute}; one of the calls that use a cancellable
+	// context cancels it from the script. A call under a context that is (or becomes) cancelled must return its error; every
+	// other call must equal the same call on a fresh interpreter. ----
+	{
+		kinds := []string{"shared:A", "shared:B", "bg", "none"}
+		type call struct {
+			cs      c15Case
+			expect  string // cancelled | normal
+			res     c15Res
+		}
+		type seq3 struct {
+			prog  int
+			calls []call
+			fresh c15Res
+		}
+		progs3 := seqProgs[:3]
+		var all []seq3
+		for p := range progs3 {
+			for a := 0; a < 4; a++ {
+				for b := 0; b < 4; b++ {
+					for d := 0; d < 4; d++ {
+						ks := []string{kinds[a], kinds[b], kinds[d]}
+						for cancelIn := 0; cancelIn <= 3; cancelIn++ { // 0 = nobody cancels
+							if cancelIn > 0 && !strings.HasPrefix(ks[cancelIn-1], "shared:") {
+								continue
+							}
+							if !c.Thorough() && (p+a+b+d+cancelIn)%3 != int(c.Seed%3) && !(ks[0] == "shared:A" && ks[2] == "shared:A") {
+								continue // a third of the combinations per seed in the quick tier; the A … A ones always
+							}
+							dead := map[string]bool{}
+							sq := seq3{prog: p}
+							for i, k := range ks {
+								cs := c15Case{Shape: "same-ctx", Prog: progs3[p], Input: recs2000, Ctx: k, Vars: []string{"K", "-1", "SPIN", "0"}}
+								exp := "normal"
+								if dead[k] {
+									cs.Vars, cs.MustErr, exp = []string{"K", "-1", "SPIN", "1"}, true, "cancelled"
+								} else if cancelIn == i+1 {
+									cs.Vars, cs.MustErr, exp = []string{"K", fmt.Sprint(5 + c.Rng.Intn(40)), "SPIN", "1"}, true, "cancelled"
+									dead[k] = true
+								}
+								sq.calls = append(sq.calls, call{cs: cs, expect: exp})
+							}
+							all = append(all, sq)
+						}
+					}
+				}
+			}
+		}
+		vh.Parallel(len(all), func(i int) {
+			sq := &all[i]
+			done := c15Guard(func() c15Res {
+				s := c15NewSession(progs3[sq.prog])
+				for k := range sq.calls {
+					if k > 0 {
+						s.in.ResetVars()
+					}
+					sq.calls[k].res = s.run(sq.calls[k].cs)
+				}
+				return c15Res{}
+			})
+			if done.Skipped || done.Panic != "" {
+				sq.calls[0].res = done
+				return
+			}
+			sq.fresh = c15NewSession(progs3[sq.prog]).run(c15Case{Prog: progs3[sq.prog], Input: recs2000, Ctx: "none", Vars: []string{"K", "-1", "SPIN", "0"}})
+		})
+		for _, sq := range all {
+			if sq.calls[0].res.Skipped {
+				continue
+			}
+			var desc []string
+			for _, cl := range sq.calls {
+				desc = append(desc, cl.cs.Ctx+"/"+cl.expect)
+			}
+			c.OracleCase()
+			c.Eval(fmt.Sprint("same-ctx", sq.prog, desc), true)
+			c.Hit("same-ctx-sequences")
+			cs := map[string]interface{}{"prog": progs3[sq.prog], "calls (context/expected)": desc, "input": "2000 records",
+				"note": "shared:A / shared:B = one context object per Interpreter, reused by every call that names it; ResetVars between calls"}
+			if sq.calls[0].res.Panic != "" {
+				c.Fail(vh.Failure{Kind: "oracle", What: sq.calls[0].res.Panic, Case: cs})
+				continue
+			}
+			for i, cl := range sq.calls {
+				c.Hit("same-ctx-call:" + cl.expect)
+				if cl.expect == "cancelled" {
+					if msg := c15Check(cl.cs, cl.res); msg != "" {
+						c.Fail(vh.Failure{Kind: "oracle", What: fmt.Sprintf("call %d of a sequence that reuses a context object: %s", i+1, msg), Case: cs,
+							Got: fmt.Sprintf("err=%v ticks=%d ticksAfter=%d out=%q", cl.res.Err, cl.res.Ticks, cl.res.TicksAfter, c15Trunc(cl.res.Out))})
+						break
+					}
+					continue
+				}
+				got := fmt.Sprintf("status=%d err=%v ticks=%d out=%q", cl.res.Status, cl.res.Err, cl.res.Ticks, c15Trunc(cl.res.Out))
+				want := fmt.Sprintf("status=%d err=%v ticks=%d out=%q", sq.fresh.Status, sq.fresh.Err, sq.fresh.Ticks, c15Trunc(sq.fresh.Out))
+				if got != want || cl.res.Panic != "" {
+					c.Fail(vh.Failure{Kind: "oracle", What: fmt.Sprintf("call %d (never cancelled) of a sequence that reuses a context object differs from Execute on a fresh interpreter", i+1),
+						Case: cs, Got: got + " panic=" + cl.res.Panic, Want: want})
+					break
+				}
+			}
+		}
+	}
+
+	// ---- error identity: once cancelled, the error returned is the context's — in every phase (BEGIN, pattern, action, END,
+	// and a function called from each), also when a secondary error arises before the next poll ----
+	{
+		secondary := map[string]string{
+			"runtime-error":      `cancel(); wait_ms(5); x = 1/zero`,
+			"write-killed-pipe":  `print "a" | "sleep 5"; cancel(); wait_ms(60); big = sprintf("%70000s", "x"); print big | "sleep 5"; print big | "sleep 5"; print big | "sleep 5"; x = 1/zero`,
+			"getline-killed-cmd": `cancel_later(40); "sleep 5" | getline y; x = 1/zero`,
+			"close-killed-cmd":   `print "a" | "sleep 5"; cancel(); wait_ms(60); r = close("sleep 5"); x = 1/zero`,
+			"system-killed":      `cancel_later(40); r = system("sleep 5"); x = 1/zero`,
+			"runtime-error-deep": `cancel(); for (j = 0; j < 3; j++) for (k in ENVIRON) q++; x = substr("abc", 1/zero)`,
+		}
+		place := map[string]string{
+			"BEGIN":            `BEGIN { print "p"; %s }`,
+			"BEGIN-func":       `function sec() { %s } BEGIN { print "p"; sec() }`,
+			"pattern":          `BEGIN { print "p" } NR == 2 && sec() { n++ } function sec() { %s; return 1 }`,
+			"pattern-range":    `BEGIN { print "p" } NR == 2, sec() { n++ } function sec() { %s; return 1 }`,
+			"action":           `BEGIN { print "p" } NR == 2 { %s }`,
+			"action-func":      `function sec() { %s } BEGIN { print "p" } NR == 2 { sec() }`,
+			"END":              `BEGIN { print "p" } { n++ } END { %s }`,
+			"END-func":         `function sec() { %s } BEGIN { print "p" } END { sec() }`,
+			"END-after-exit":   `BEGIN { print "p" } NR == 1 { exit 3 } END { %s }`,
+			"BEGIN-only-begin": `BEGIN { print "p"; %s }`,
+		}
+		var ids []c15Case
+		for _, pk := range vh.SortedKeys(map[string]int{"BEGIN": 0, "BEGIN-func": 0, "pattern": 0, "pattern-range": 0, "action": 0, "action-func": 0, "END": 0, "END-func": 0, "END-after-exit": 0}) {
+			for _, sk := range vh.SortedKeys(map[string]int{"runtime-error": 0, "write-killed-pipe": 0, "getline-killed-cmd": 0, "close-killed-cmd": 0, "system-killed": 0, "runtime-error-deep": 0}) {
+				slow := sk != "runtime-error" && sk != "runtime-error-deep"
+				if slow && !c.Thorough() && !(strings.HasPrefix(pk, "END") || pk == "action" || pk == "BEGIN") {
+					continue
+				}
+				ids = append(ids, c15Case{Shape: "error-identity:" + pk + ":" + sk, Prog: fmt.Sprintf(place[pk], secondary[sk]), Input: "a\nb\nc\n",
+					Ctx: "live", MustErr: true, Prefix: "p\n", MaxWall: 4, Buffered: len(ids)%2 == 1})
+			}
+		}
+		idRes := make([]c15Res, len(ids))
+		for i := range ids {
+			idRes[i] = c15RunGuard(ids[i])
+		}
+		for i, cs := range ids {
+			r := idRes[i]
+			if r.Skipped {
+				continue
+			}
+			c.OracleCase()
+			c.Eval(cs.Shape, true)
+			c.Hit("error-identity")
+			if r.Err != nil && !c15IsCtxErr(r.Err) {
+				c.Hit("error-identity:secondary-error-won")
+			}
+			if msg := c15Check(cs, r); msg != "" {
+				c.Fail(vh.Failure{Kind: "oracle", What: "error identity: " + msg, Case: cs, Got: fmt.Sprintf("err=%v wall=%.2fs out=%q", r.Err, r.Wall, c15Trunc(r.Out))})
+			}
 		}
 	}
 
